@@ -33,11 +33,18 @@ def gen_case(rng, i=None, pruning=False, allow_none=True):
     if sampled:
         size = dict(do_all=rng.choice([1, 2, 5, 100]), do_all_exceptions=rng.choice([1, 2, 5, 4000]),
                     n_per_length=rng.choice([1, 2, 64]), max_sampled_attempts=rng.choice([1, 2, 3]))
+        if rng.random() < 0.4:
+            size['max_strings_in_group'] = rng.choice([1, 2, 3, 10])
+        if rng.random() < 0.3:
+            size['max_punc_in_group'] = rng.choice([1, 2, 5])
         seed = rng.choice([None, 1, 2, 12345])
         if len(xs) < 6:
             xs = xs + S.multiset(rng, n=12, alph=alph)
     elif rng.random() < 0.1:
         size = False if rng.random() < 0.5 else dict(use_sampling=False)
+    elif rng.random() < 0.15:
+        # group-size settings alone (no sampling): do_all stays at its default
+        size = dict(max_strings_in_group=rng.choice([1, 2, 3]), max_punc_in_group=rng.choice([1, 2, 5]))
     if pruning:
         if rng.random() < 0.6:
             kw['max_patterns'] = rng.choice([1, 2, 3])
@@ -128,6 +135,8 @@ def effective_sampling(case):
     """True when the sampled-attempt machinery can be entered for this input."""
     sz = case['size']
     if not isinstance(sz, dict) or sz.get('use_sampling') is False:
+        return False
+    if 'do_all' not in sz:
         return False
     n = len(set(x for x in case['xs'] if x is not None))
     return n > sz['do_all'] and n > sz['do_all_exceptions']
